@@ -24,12 +24,12 @@ for (w, n) in ((13, 5), (64, 2), (1, 7), (7, 0), (33, 4)):
          desc='library -> document: IntVector %dx%d decodes to the same items' % (w, n), shape={'width': w, 'len': n})
     inst(P, 'c07_doc_to_int_w%d_n%d' % (w, n), 'c07::doc_to_int(%d, %d)' % (w, n), tier='quick' if (w, n) in ((13, 5),) else 'thorough', unwind=U, unwindset=base_uw(), cap=600,
          desc='document -> library: an IntVector file written from the document rules loads to the same items', shape={'width': w, 'len': n})
-for (l, mask, tier) in ((65, 0, 'quick'), (65, 1, 'quick'), (2, 7, 'thorough'), (0, 0, 'thorough'), (7, 6, 'thorough'), (130, 1, 'thorough')):
+for (l, mask, tier) in ((65, 0, 'quick'), (65, 1, 'quick'), (2, 7, 'deep'), (0, 0, 'thorough'), (7, 6, 'deep'), (130, 1, 'thorough')):
     uwd = base_uw(select_unwindset(l))
     inst(P, 'c07_bitvector_to_doc_l%d_m%d' % (l, mask), 'c07::bitvector_to_doc(%d, %d)' % (l, mask), tier=tier, unwind=U, unwindset=uwd, stubs=ALLOC if mask & 6 else [], cap=900, mem=12,
          desc='library -> document: BitVector %d bits with supports %d: ones, raw bitvector, three optionals whose lengths account for the whole file' % (l, mask), shape={'len': l, 'supports': mask})
 for l in (0, 65, 130):
-    inst(P, 'c07_doc_to_bitvector_l%d' % l, 'c07::doc_to_bitvector(%d)' % l, tier='thorough', unwind=U, unwindset=base_uw({r'RankSupport::new$#0': 4, r'RankSupport::new$#1': 10}), cap=900, mem=30,
+    inst(P, 'c07_doc_to_bitvector_l%d' % l, 'c07::doc_to_bitvector(%d)' % l, tier='deep', unwind=U, unwindset=base_uw({r'RankSupport::new$#0': 4, r'RankSupport::new$#1': 10}), cap=900, mem=30,
          desc='document -> library: a support-free BitVector file loads, reports no supports, rank after enable_rank is exact', shape={'len': l})
 
 
@@ -61,13 +61,13 @@ class LUW(dict):
         return True
 
 
-for (n, m, tier) in ((12, 3, 'thorough'), (6, 2, 'thorough'), (0, 0, 'quick'), (1 << 63, 2, 'thorough'), ((1 << 64) - 1, 1, 'thorough')):
+for (n, m, tier) in ((12, 3, 'deep'), (6, 2, 'deep'), (0, 0, 'quick'), (1 << 63, 2, 'deep'), ((1 << 64) - 1, 1, 'deep')):
     inst(P, 'c07_sparse_to_doc_n%d_m%d' % (n, m), SC('c07::sparse_to_doc(%d, %d, %d)', n, m), tier=tier, unwind=U, stubs=SPARSE, cap=1200, cap_thorough=3600, mem=30,
          desc='library -> document: SparseVector (universe %d, %d symbolic positions) written by the library decodes by the Elias-Fano rules of the document; exactly ceil(n/2^w) buckets' % (n, m),
          shape={'universe': n, 'ones': m}).unwindset = LUW(n, m)
-for (n, m, w, tier) in ((12, 3, 1, 'quick'), (12, 3, 2, 'quick'), (12, 3, 3, 'thorough'), (12, 3, 5, 'thorough'), (6, 2, 1, 'thorough'), (1 << 40, 2, 37, 'thorough')):
+for (n, m, w, tier) in ((12, 3, 1, 'quick'), (12, 3, 2, 'quick'), (12, 3, 3, 'thorough'), (12, 3, 5, 'thorough'), (6, 2, 1, 'thorough'), (1 << 40, 2, 37, 'deep')):
     for q, qn in enumerate(('select', 'rank_get', 'select_zero', 'pred_succ')):
-        inst(P, 'c07_doc_to_sparse_n%d_m%d_w%d_%s' % (n, m, w, qn), 'c07::doc_to_sparse(%d, %d, %d, %d)' % (n, m, w, q), tier=tier if qn in ('select',) else 'thorough', unwind=U,
+        inst(P, 'c07_doc_to_sparse_n%d_m%d_w%d_%s' % (n, m, w, qn), 'c07::doc_to_sparse(%d, %d, %d, %d)' % (n, m, w, q), tier=tier if qn in ('select',) else 'deep', unwind=U,
              stubs=['bvspec'], cap=1200, cap_thorough=3600, mem=14 if qn == 'select' else 30,
              desc='document -> library: a SparseVector file with low width %d (any admissible choice) and NO support structures loads and answers %s exactly; the loader must enable what it needs' % (w, qn),
              shape={'universe': n, 'ones': m, 'low_width': w, 'query': qn}).unwindset = LUW(n, m, w)
@@ -79,7 +79,7 @@ for (n, maxv, tier) in ((3, 1, 'quick'), (4, 2, 'thorough'), (5, 5, 'thorough'))
         d.update(base_uw())
         inst(P, 'c07_wm_to_doc_n%d_max%d_fw%d' % (n, maxv, fw), 'c07::wm_to_doc(%d, %d, %d)' % (n, maxv, fw), tier=tier, unwind=U, unwindset=d, stubs=['bvspec'], cap=900, mem=12,
              desc='library -> document: WaveletMatrix serializes as len, width, one bitvector per level (stable partition order), first[] at its minimal width', shape={'len': n, 'max_value': maxv, 'first_width': fw})
-        inst(P, 'c07_doc_to_wm_n%d_max%d_fw%d' % (n, maxv, fw), 'c07::doc_to_wm(%d, %d, %d)' % (n, maxv, fw), tier='thorough', unwind=U, unwindset=d, stubs=['bvspec'], cap=1200, cap_thorough=3600, mem=30,
+        inst(P, 'c07_doc_to_wm_n%d_max%d_fw%d' % (n, maxv, fw), 'c07::doc_to_wm(%d, %d, %d)' % (n, maxv, fw), tier='deep', unwind=U, unwindset=d, stubs=['bvspec'], cap=1200, cap_thorough=3600, mem=30,
              desc='document -> library: a WaveletMatrix file written from the document rules (no supports) loads; get and rank exact', shape={'len': n, 'max_value': maxv, 'first_width': fw})
     d = wm_uw(n, width)
     d.update(base_uw({r'sort': 40, r'start_offsets': (1 << width) + n + 4, r'insertion_sort|insert_tail|sift|heapsort|ipnsort|quicksort|small_sort': 40}))
@@ -90,7 +90,7 @@ for name, (units, sw) in {'one_small': ([(1, 1)], 1), 'two_small': ([(1, 1), (1,
     d = rl_uw(units)
     d.update(base_uw({r'doc::enc_rl': 24, r'doc::code_len': 4, r'c07::doc_to_rl': 10}))
     call = 'c07::doc_to_rl(&[%s], %d)' % (', '.join('(%d, %d)' % u for u in units), sw)
-    inst(P, 'c07_doc_to_rl_%s' % name, call, tier='quick' if name == 'two_small' else 'thorough', unwind=U, unwindset=d,
+    inst(P, 'c07_doc_to_rl_%s' % name, call, tier='quick' if name == 'two_small' else ('thorough' if name == 'one_small' else 'deep'), unwind=U, unwindset=d,
          stubs=['simple_sds::rl_vector::index::SampleIndex::new => stubs::sample_index_new_contract'], cap=1500, mem=14,
          desc='document -> library: an RLVector file written from the document rules (runs %s) loads; run iterator yields exactly the runs' % (units,), shape={'runs': units, 'sample_width': sw})
 
